@@ -328,8 +328,10 @@ class SgzConverter(SgzReader):
                 segyfile.trace = [self.get_trace(i) for i in range(self.tracecount)]
                 segyfile.header = [self.regenerate_trace_header(i) for i in range(self.tracecount)]
 
-        with open(out_file, "r+b") as f:
-            f.write(self.headerbytes[DISK_BLOCK_BYTES: DISK_BLOCK_BYTES + SEGY_FILE_HEADER_BYTES])
+        # Only files made from SEG-Y hold a SEG-Y file header; otherwise keep the one segyio has just written
+        if self.get_file_source_code() == Filetype.SEGY.value:
+            with open(out_file, "r+b") as f:
+                f.write(self.headerbytes[DISK_BLOCK_BYTES: DISK_BLOCK_BYTES + SEGY_FILE_HEADER_BYTES])
 
     def convert_to_adv_sgz(self, out_file):
         assert(self.rate == 2)
